@@ -130,7 +130,7 @@ def h_rows(ctx, sample_names, pedigree, sel, normal_sel, order, skip_somatic, n=
     except IndexError as exc:
         raised = exc
     except Exception as exc:
-        ctx.claim(False, f"read(vcf) raised {type(exc).__name__}", info=str(exc)[:200])
+        claim_raised(ctx, "read(vcf)", exc)
         return
     finally:
         vcfio.pysam = orig
@@ -232,7 +232,7 @@ def h_het(ctx, tumor_boost, zygosity_freq=None):
     try:
         varr = cmdutil.load_het_snps("x.vcf", None, None, 0, zygosity_freq, False)
     except Exception as exc:
-        ctx.claim(False, f"load_het_snps raised {type(exc).__name__}", info=str(exc)[:200])
+        claim_raised(ctx, "load_het_snps", exc)
         return
     finally:
         vcfio.pysam = orig
@@ -289,7 +289,7 @@ def h_baf(ctx, above_half, tumor_boost=False):
     try:
         baf = list(va.baf_by_ranges(segs, above_half=above_half, tumor_boost=tumor_boost))
     except Exception as exc:
-        ctx.claim(False, f"baf_by_ranges raised {type(exc).__name__}", info=str(exc)[:200])
+        claim_raised(ctx, "baf_by_ranges", exc)
         return
     ctx.observe("baf", baf)
     ctx.claim(len(baf) == 3, "one BAF per range")
@@ -323,7 +323,7 @@ def h_call_baf(ctx, filt):
     try:
         out = call.do_call(segs, va, "none", 2, None, False, True, None, [filt] if filt else None)
     except Exception as exc:
-        ctx.claim(False, f"do_call raised {type(exc).__name__}", info=str(exc)[:200])
+        claim_raised(ctx, "do_call", exc)
         return
     got = list(out.data.itertuples(index=False))
     ctx.observe("n", len(got))
